@@ -35,6 +35,10 @@ class Fault(Exception):
     pass
 
 
+class FaultExit(SystemExit):
+    """an exception that is not an Exception (what sys.exit() or an interrupt inside a functor raises)"""
+
+
 def f(x):
     return 2 * x + 1
 
@@ -46,7 +50,7 @@ def call_input(k, n):
 class Config:
     def __init__(self, name, kind="functor", workers=1, quota=None, wq=1.0, rq=None, calls=(),
                  until_all_ready=False, fault=None, family=None, required=(), delayed_put=False,
-                 precreate=False, wid_offset=0, second_pool=False):
+                 precreate=False, wid_offset=0, second_pool=False, zipped=False):
         self.name = name
         self.kind = kind                  # functor | factory
         self.workers = workers
@@ -58,6 +62,7 @@ class Config:
         self.fault = fault                # None | ("begin", worker index) | ("item", j)  j-th item seen overall
         self.family = family or name
         self.required = list(required)    # regexes on source lines that some execution must reach
+        self.zipped = zipped              # calls 0 (pool) and 1 (second pool) are consumed alternately, like zip(a, b)
         self.second_pool = second_pool    # a second pool of the same class is alive and makes the odd-numbered calls
         self.wid_offset = wid_offset      # the pool has handed out this many worker ids before (long-lived pool)
         self.precreate = precreate        # all generators are created first, then consumed one after the other
@@ -67,7 +72,8 @@ class Config:
         return {"name": self.name, "pool": self.kind, "workers": self.workers, "quota": self.quota,
                 "work_queue_maxsize": self.wq, "results_queue_maxsize": self.rq, "calls": self.calls,
                 "until_all_ready": self.until_all_ready, "fault": self.fault, "delayed_put": self.delayed_put,
-                "precreate": self.precreate, "wid_offset": self.wid_offset, "second_pool": self.second_pool}
+                "precreate": self.precreate, "wid_offset": self.wid_offset, "second_pool": self.second_pool,
+                "zipped": self.zipped}
 
 
 def make_driver(cfg):
@@ -92,13 +98,13 @@ def make_driver(cfg):
                 if fault is not None and fault[0] == "item":
                     # processes do not share the counter: use the item value itself
                     if x == fault[1]:
-                        raise Fault("functor fault at %r" % (x,))
+                        raise (FaultExit if fault[2:] == ("exit",) else Fault)("functor fault at %r" % (x,))
                 return f(x)
 
             def begin(self):
                 self.log.add(self.wid, "begin")
                 if fault is not None and fault[0] == "begin" and self.cidx == fault[1]:
-                    raise Fault("begin fault")
+                    raise (FaultExit if fault[2:] == ("exit",) else Fault)("begin fault")
                 self.log.add(self.wid, "begin-done")
 
             def end(self):
@@ -136,7 +142,7 @@ def make_driver(cfg):
                 procs = list(object.__getattribute__(pool, "procs"))
                 pool.until_all_ready()
                 log.add(None, "ready-returned", [p.wid for p in procs])
-            if cfg.until_all_ready:
+            if cfg.until_all_ready and cfg.until_all_ready != "mid":
                 wait_ready()
             pre = {}
             if cfg.precreate:
@@ -145,7 +151,28 @@ def make_driver(cfg):
                     data = call_input(k, n)
                     inp = vmp.LazyInput(data) if ikind == "lazy" else (iter(data) if ikind == "iter" else data)
                     pre[k] = pool.imap(inp, cs) if mode == "imap" else pool.imap_unordered(inp, cs)
-            for k, call in enumerate(cfg.calls):
+            if cfg.zipped:
+                # two calls, one on each pool, whose results are taken alternately (zip(a.imap(x), b.imap(y)))
+                gens, recs = [], []
+                for k, call in enumerate(cfg.calls[:2]):
+                    mode, ikind, n, cs = call[:4]
+                    data = call_input(k, n)
+                    rec = {"mode": mode, "data": data, "cs": cs, "yielded": [], "finished": False, "leftover": None}
+                    out["calls"].append(rec)
+                    recs.append(rec)
+                    p_ = pool2 if k == 1 else pool
+                    gens.append(p_.imap(data, cs) if mode == "imap" else p_.imap_unordered(data, cs))
+                live = [0, 1]
+                while live:
+                    for k in list(live):
+                        try:
+                            recs[k]["yielded"].append(next(gens[k]))
+                        except StopIteration:
+                            recs[k]["finished"] = True
+                            live.remove(k)
+                for rec in recs:
+                    rec["leftover"] = payload_items(s)
+            for k, call in enumerate(cfg.calls if not cfg.zipped else []):
                 mode, ikind, n, cs = call[:4]
                 exact = len(call) > 4 and call[4] == "exact"
                 if cfg.until_all_ready == "each" and k > 0:
@@ -165,6 +192,9 @@ def make_driver(cfg):
                 else:
                     for v in gen:
                         rec["yielded"].append(v)
+                        if cfg.until_all_ready == "mid":
+                            # between two results of a running call: retired workers are being replaced right now
+                            wait_ready()
                 rec["finished"] = True
                 rec["leftover"] = payload_items(s)
             if cfg.until_all_ready == "each":
@@ -302,7 +332,7 @@ def judge(cfg, r):
                           "%s: result chunks left in a queue at the end: %r" % (cfg.name, left), {}))
     # ---- thread / process exceptions --------------------------------------------------------------
     for role, task, ename, msg, tb in r.exceptions:
-        if ename == "Fault":
+        if ename in ("Fault", "FaultExit"):
             continue
         if faulty and role == "W":
             continue
@@ -534,7 +564,8 @@ def replay_pool(rec):
                  rq=c["results_queue_maxsize"], calls=[tuple(x) for x in c["calls"]],
                  until_all_ready=c["until_all_ready"], fault=tuple(c["fault"]) if c["fault"] else None,
                  delayed_put=c.get("delayed_put", False), precreate=c.get("precreate", False),
-                 wid_offset=c.get("wid_offset", 0), second_pool=c.get("second_pool", False))
+                 wid_offset=c.get("wid_offset", 0), second_pool=c.get("second_pool", False),
+                 zipped=c.get("zipped", False))
     pin_self()
     racy = {(tuple(a), b) for a, b in rp["racy"]}
     outs = []
